@@ -85,3 +85,42 @@ package itertools
 //@     invariant -1 <= rangeindex && (rangeindex < len(n) || (len(n) == 0 && rangeindex == -1))
 //@     invariant empty <==> (exists j in 0..rangeindex+1: n[j] < 1)
 //@     decreases len(n) - rangeindex
+
+// ---- CombinationsColex (colexicographic k-subsets of 0..n-1; b.j caches the position to increase)
+// "strictly increasing" is written in its two-index form (data[u]-data[t] >= u-t), which is what
+// the shortcut tests of Next rely on and which instantiation can use without induction.
+//@ pred colexV(b *CombinationColexIterator) = len(b.data) == b.k && b.k >= 1 && (forall t in 0..b.k: forall u in t+1..b.k: b.data[u] - b.data[t] >= u - t) && 0 <= b.data[0] && b.data[b.k-1] <= b.n - 1
+//@ pred colexP0(b *CombinationColexIterator) = len(b.data) == b.k && b.k >= 1 && (forall t in 0..b.k-1: b.data[t] == t) && b.data[b.k-1] == b.k - 2 && b.j == b.k
+//@ pred colexHint(b *CombinationColexIterator) = -1 <= b.j && b.j <= b.k && ((0 <= b.j && b.j <= b.k - 2) ==> ((forall t in 0..b.j+1: b.data[t] == t) && b.data[b.j] + 1 < b.data[b.j+1])) && (b.j == b.k - 1 ==> (forall t in 0..b.k: b.data[t] == t)) && (b.j == b.k ==> ((forall t in 0..b.k-1: b.data[t] == t) && b.data[b.k-1] == b.k - 2))
+
+//@ func CombinationsColex
+//@   requires 0 <= k && k <= 16777216 && -16777216 <= n && n <= 16777216
+//@   ensures fresh(result) && fresh(result.data) && result.n == n && result.k == k && result.j == k && len(result.data) == k
+//@   ensures k >= 1 ==> colexP0(result) && colexHint(result)
+//@   loop 1
+//@     invariant 0 <= i && i <= k && len(data) == k
+//@     invariant forall t in 0..i: data[t] == t
+//@     decreases k - i
+
+//@ func (*CombinationColexIterator).Next
+//@   requires -16777216 <= b.n && b.n <= 16777216 && -16777216 <= b.k && b.k <= 16777216
+//@   requires (1 <= b.k && b.k <= b.n) ==> ((colexV(b) || colexP0(b)) && colexHint(b))
+//@   modifies b, b.data
+//@   ensures b.n == old(b.n) && (old(b.k) >= 1 ==> b.k == old(b.k) && sameslice(b.data, old(b.data)))
+//@   ensures old(b.k) == 0 ==> result && b.k == -1
+//@   ensures old(b.k) < 0 ==> !result && b.k < 0
+//@   ensures old(b.k) > old(b.n) && old(b.k) >= 1 ==> !result && unmodified()
+//@   ensures [valid] (1 <= old(b.k) && old(b.k) <= old(b.n) && result) ==> colexV(b) && colexHint(b)
+//@   ensures [first] (1 <= old(b.k) && old(b.k) <= old(b.n) && old(colexP0(b))) ==> result && (forall t in 0..b.k: b.data[t] == t)
+//@   ensures [succ] (1 <= old(b.k) && old(b.k) <= old(b.n) && old(colexV(b)) && result) ==> exists p in 0..b.k: (forall t in p+1..b.k: b.data[t] == old(b.data)[t]) && b.data[p] == old(b.data)[p] + 1 && (forall t in 0..p: b.data[t] == t) && (forall t in 0..p: old(b.data)[t] + 1 == old(b.data)[t+1])
+//@   ensures [last] (1 <= old(b.k) && old(b.k) <= old(b.n) && old(colexV(b)) && !result) ==> (forall t in 0..b.k: b.data[t] == old(b.data)[t]) && (forall t in 0..b.k: b.data[t] == b.n - b.k + t) && b.j == old(b.j)
+//@   opt patterns=simple
+//@   opt dead=ret2
+//@   loop 1
+//@     invariant 0 <= j && j <= b.k - 1 && 1 <= b.k && b.k <= b.n && b.k == old(b.k) && b.n == old(b.n) && sameslice(b.data, old(b.data)) && len(b.data) == b.k && old(b.j) == -1 && b.j == -1 && old(colexV(b))
+//@     invariant forall t in 0..j: b.data[t] == t
+//@     invariant forall t in 0..j: old(b.data)[t] + 1 == old(b.data)[t+1]
+//@     invariant old(b.data)[j] == old(b.data)[0] + j
+//@     invariant forall t in j..b.k: b.data[t] == old(b.data)[t]
+//@     invariant old(b.data)[0] != b.n - b.k
+//@     decreases b.k - 1 - j
